@@ -76,6 +76,13 @@ class Cfg:
         self.hermitian = bool(max(np.abs(b - b.conj().T).max() for b in self.B) < 1e-15)
 
 
+def new_csys(name):
+    """a fresh CompositeSystem of configuration `name` (nothing cached yet)"""
+    from quara.objects.elemental_system import ElementalSystem
+    from quara.objects.composite_system import CompositeSystem
+    return CompositeSystem([ElementalSystem(i, _family(f, dm)) for i, (f, dm) in enumerate(CONFIGS[name][0])])
+
+
 def basis_flat(B):
     out = []
     for b in B:
@@ -338,6 +345,8 @@ def dict_entries(dct, key):
 
 
 def dict_same(impl, mod):
+    """same non-zero entries with the same coefficients; the order in which they are listed is irrelevant to every conversion (a sum)"""
+    impl, mod = sorted(impl, key=lambda e: e[:2]), sorted(mod, key=lambda e: e[:2])
     return len(impl) == len(mod) and all(i[0] == m[0] and i[1] == m[1] and abs(i[2] - m[2]) <= 1e-15 for i, m in zip(impl, mod))
 
 
@@ -375,7 +384,7 @@ def chk_tables(ctx, case):
         K.eq("CompositeSystem.basis_basisconjugate", dense(cs.basis_basisconjugate((a, b))), exp, "bbc(%d,%d)" % (a, b), tol=1e-15)
         K.eq("CompositeSystem.basis_basisconjugate", dense(cs.basis_basisconjugate(a * D + b)), exp, "bbc(int %d)" % (a * D + b), tol=1e-15)
     ctx.count("tables", key=(c.name, "bbc"), label="basis_basisconjugate")
-    # dict tables, compared entry by entry (keys, order, coefficients)
+    # dict tables, compared entry by entry (keys, index pairs, coefficients)
     for which, attr in ((0, "dict_from_hs_to_choi"), (1, "dict_from_choi_to_hs")):
         dct = getattr(cs, attr)
         rows = list(range(D)) if rows_sel is None else sorted(set(r % D for r in rows_sel))
@@ -403,6 +412,221 @@ def sub_tables(ctx):
             cases.append({"cfg": n})
     ctx.sample("tables", cases[0])
     ctx.run_cases("tables", chk_tables, cases)
+
+
+# ================================================================================================ cache tables after a history of use / delete_* / rebuild
+# CompositeSystem builds its tables lazily, lets the user free each one (delete_<table>()) and rebuilds it on the next use.  The property
+# ("each conversion agrees with its defining formula, all alternative implementations agree, conversion + inverse = identity") must hold on a
+# system with ANY such history: every table that is cached at any moment must be the defining formula (= the model's table = a fresh system's),
+# and the conversions that read the tables must still agree with the model and invert each other.
+SPARSE_T = [n for n, _ in TABLES]
+DICT_T = ["dict_from_hs_to_choi", "dict_from_choi_to_hs"]
+ALL_T = SPARSE_T + DICT_T
+TWIN_GROUP = ["basisconjugate_basis_sparse", "basis_basisconjugate_T_sparse", "basis_basisconjugate_T_sparse_from_1", "basishermitian_basis_T_from_1"]   # built together
+PAIR_GROUP = ["basis_T_sparse", "basisconjugate_sparse"]                                                                                                    # built together
+# conversions that read (hence rebuild) a table
+PATHS = {"basis_T_sparse": ["density", "povm_m"], "basisconjugate_sparse": ["vec", "povm_v"],
+         "basisconjugate_basis_sparse": ["hs_sparse", "var_rt"], "basis_basisconjugate_T_sparse": ["choi_sparse", "var_rt"],
+         "basis_basisconjugate_T_sparse_from_1": [], "basishermitian_basis_T_from_1": [],
+         "dict_from_hs_to_choi": ["choi_dict"], "dict_from_choi_to_hs": ["hs_dict"]}
+CONVS = ["density", "povm_m", "vec", "povm_v", "choi_sparse", "choi_dict", "hs_sparse", "hs_dict", "var_rt"]
+_HREF = {}
+
+
+def hist_ref(ctx, c, seed_obj):
+    """references of one configuration: a fresh system's tables, the model's tables (d <= 4), and generic test objects with their expected
+    images computed by the model: asymmetric real HS matrix H (couples imaginary with real basis elements, so a missing conjugate or a
+    transposition in a rebuilt table changes the result), its Choi matrix, a generic real vec and its operator"""
+    key = (c.name, seed_obj)
+    if key in _HREF:
+        return _HREF[key]
+    import random
+    rng = random.Random(seed_obj)
+    fresh = new_csys(c.name)
+    ref = {"fresh": {}, "model": {}}
+    for name, w in TABLES:
+        ref["fresh"][name] = np.asarray(getattr(fresh, name).toarray(), dtype=complex)
+        if c.d <= 4:
+            ref["model"][name] = model_table_full(ctx, c, name, w)
+    for which, name in enumerate(DICT_T):
+        dct = getattr(fresh, name)
+        ref["fresh"][name] = {k: dict_entries(dct, k) for k in dct}
+        if c.d <= 4:
+            ref["model"][name] = {k: v for k, v in model_dict_full(ctx, c, which).items() if v}
+    H = rand_real(rng, c.D, c.D)
+    v = rand_real(rng, c.D)
+    ref["H"], ref["v"] = H, v
+    ref["choi"] = m_choi(ctx, c, H)
+    ref["rho"] = m_op_of_cvec(ctx, c, v)
+    _HREF[key] = ref
+    return ref
+
+
+def chk_table_history(ctx, case):
+    from quara.objects import gate as G, state as S, povm as P
+    c = cfg(case["cfg"])
+    K = Cmp(ctx, "table_history", case)
+    ref = hist_ref(ctx, c, case["seed_obj"])
+    cs = new_csys(case["cfg"])                    # the system that goes through the history
+    H, v, choi, rho = ref["H"], ref["v"], ref["choi"], ref["rho"]
+    hist = [tuple(x) for x in case["hist"]]
+    done = []
+
+    def cmp_cached(trigger):
+        """every table that is cached NOW (private attribute, nothing is rebuilt by looking) is the defining formula"""
+        for name in ALL_T:
+            val = getattr(cs, "_" + name)
+            if val is None:
+                continue
+            for which in ("model", "fresh"):
+                exp = ref[which].get(name)
+                if exp is None:
+                    continue
+                if name in DICT_T:
+                    got = {k: dict_entries(val, k) for k in val}
+                    ok = set(got) == set(exp) and all(dict_same(got[k], exp[k]) for k in exp)
+                    detail = "" if ok else "keys %d vs %d, first difference at %s" % (len(got), len(exp), next((k for k in sorted(set(got) | set(exp)) if k not in got or k not in exp or not dict_same(got[k], exp[k])), None))
+                else:
+                    arr = np.asarray(val.toarray() if hasattr(val, "toarray") else val, dtype=complex)
+                    ok = arr.shape == exp.shape and (arr.size == 0 or np.abs(arr - exp).max() <= 1e-15)
+                    detail = "" if ok else ("shape %s vs %s" % (arr.shape, exp.shape) if arr.shape != exp.shape else
+                                            "max |difference| %.3g at %s" % (np.abs(arr - exp).max(), np.unravel_index(int(np.argmax(np.abs(arr - exp))), arr.shape)))
+                if not ok:
+                    K.bad("CompositeSystem." + name, "table-differs-after-history",
+                          "after the history %s (last step %s) the cached table %s differs from %s: %s [cfg %s]" % (
+                              done, trigger, name, "the model's B_a (x) conj B_b layout" if which == "model" else "the table of a fresh system", detail, c.name))
+                    break
+
+    def conv(op):
+        sig = "value-after-table-history"
+        what = "after the history %s: " % (done,)
+        if op == "density":
+            K.eq("state.to_density_matrix_from_vec", S.to_density_matrix_from_vec(cs, v.copy()), rho, what + "vec -> density vs model", sig=sig)
+        elif op == "povm_m":
+            K.eq("povm.to_matrices_from_vecs", P.to_matrices_from_vecs(cs, [v.copy()])[0], rho, what + "vec -> matrix vs model", sig=sig)
+        elif op == "vec":
+            K.eq("state.to_vec_from_density_matrix_with_sparsity", S.to_vec_from_density_matrix_with_sparsity(cs, rho.copy()), v, what + "density -> vec (inverse of the model's vec -> density)", tol=1e-10, sig=sig)
+        elif op == "povm_v":
+            K.eq("povm.to_vec_from_matrix_with_sparsity", P.to_vec_from_matrix_with_sparsity(cs, rho.copy()), v, what + "matrix -> vec", tol=1e-10, sig=sig)
+        elif op == "choi_sparse":
+            K.eq("gate.to_choi_from_hs_with_sparsity", G.to_choi_from_hs_with_sparsity(cs, H.copy()), choi, what + "HS -> Choi vs model", sig=sig)
+        elif op == "choi_dict":
+            K.eq("gate.to_choi_from_hs_with_dict", G.to_choi_from_hs_with_dict(cs, H.copy()), choi, what + "HS -> Choi vs model", sig=sig)
+        elif op == "hs_sparse":
+            K.eq("gate.to_hs_from_choi_with_sparsity", G.to_hs_from_choi_with_sparsity(cs, choi.copy()), H, what + "Choi -> HS (inverse of the model's HS -> Choi; plain and dict variants are compared with the same H)", tol=1e-10, sig=sig)
+        elif op == "hs_dict":
+            K.eq("gate.to_hs_from_choi_with_dict", G.to_hs_from_choi_with_dict(cs, choi.copy()), H, what + "Choi -> HS", tol=1e-10, sig=sig)
+        elif op == "hs_plain":
+            K.eq("gate.to_hs_from_choi", G.to_hs_from_choi(cs, choi.copy()), H, what + "Choi -> HS", tol=1e-10, sig=sig)
+        elif op == "var_rt":
+            var = H.reshape(-1)
+            K.eq("gate.to_var_from_choi", G.to_var_from_choi(cs, G.to_choi_from_var(cs, var.copy(), False), False), var, what + "var -> Choi -> var", tol=1e-10, sig=sig)
+        else:
+            raise KeyError(op)
+
+    for step in hist:
+        kind, arg = step
+        if kind == "del":
+            getattr(cs, "delete_" + arg)()
+        elif kind == "get":
+            getattr(cs, arg)
+        elif kind == "conv":
+            done.append(step)
+            conv(arg)
+            cmp_cached(step)
+            continue
+        else:
+            raise KeyError(kind)
+        done.append(step)
+        if kind != "del":
+            cmp_cached(step)
+    # final phase: the tables named in the case (default: every table that was freed, with the tables built together with it) through their
+    # properties in the given order, then every conversion that reads a freed table (variant agreement on the rebuilt tables; the plain
+    # Choi -> HS variant is compared with the same H where that is cheap)
+    freed = [a for k, a in hist if k == "del"]
+    final = case.get("final")
+    if final is None:
+        final = [t for t in ALL_T if any(t in g and f in g for f in freed for g in (TWIN_GROUP, PAIR_GROUP, DICT_T))]
+    for name in final:
+        getattr(cs, name)
+        done.append(("get", name))
+        cmp_cached(("get", name))
+    if c.orthonormal and c.hermitian:
+        ops = [op for op in CONVS if any(op in PATHS[t] for t in (freed or final))]
+        for op in ops + (["hs_plain"] if c.d <= 2 and "hs_sparse" in ops else []):
+            conv(op)
+    ndel = sum(1 for k, _ in hist if k == "del")
+    ctx.count("table_history", key=(c.name, tuple(hist), tuple(case.get("final", ()))), nontrivial=ndel > 0,
+              label="%s/%s/deletes=%d" % (c.name, case.get("gen", "?"), min(ndel, 4)))
+
+
+def group_of(t):
+    return next(g for g in (TWIN_GROUP, PAIR_GROUP, DICT_T) if t in g)
+
+
+def history_cases(ctx, name, level):
+    """level 'full' (1 qubit, Pauli): every single delete x every rebuild path, every ordered pair of deletes, every subset of each jointly built
+    group x each member used first afterwards, cold first uses, seeded random histories over the whole alphabet;
+    'medium': singles, every subset of each group with one seeded first use, a few random; 'light' (d >= 4, quick): each table of the jointly
+    built d^4 group freed and rebuilt through one seeded path + one random.  'warm' = the tables built together with the freed one are cached."""
+    rng = ctx.rng
+    seed_obj = rng.randrange(2 ** 30)
+    cases = []
+
+    def add(gen, hist, final=None):
+        case = {"cfg": name, "gen": gen, "seed_obj": seed_obj, "hist": [list(x) for x in hist]}
+        if final is not None:
+            case["final"] = final
+        cases.append(case)
+
+    def rebuilds(t):
+        return [("get", t)] + [("conv", p) for p in PATHS[t]]
+
+    def warm(ts):
+        out = []
+        for t in ts:
+            for u in group_of(t):
+                if ("get", u) not in out:
+                    out.append(("get", u))
+        return out
+    if level == "light":
+        for t in TWIN_GROUP:
+            add("single", warm([t]) + [("del", t), rng.choice(rebuilds(t))])
+        dels = rng.sample(TWIN_GROUP, rng.randint(2, 3))
+        add("random", [("conv", "choi_sparse")] + [("del", t) for t in dels] + [rng.choice(rebuilds(rng.choice(dels)))], final=rng.sample(TWIN_GROUP, 4))
+        return cases
+    for t in ALL_T:                                        # one table freed, rebuilt through each access path (the tables built with it stay cached)
+        for rb in rebuilds(t):
+            add("single", warm([t]) + [("del", t), rb])
+    for group in (TWIN_GROUP, PAIR_GROUP, DICT_T):          # every subset of a jointly built group freed, then a member used first
+        for mask in range(1, 2 ** len(group)):
+            sub = [t for i, t in enumerate(group) if mask >> i & 1]
+            for first in (group if level == "full" else [rng.choice(group)]):
+                add("subset", warm(group) + [("del", t) for t in sub] + [rng.choice(rebuilds(first))], final=rng.sample(group, len(group)))
+    if level == "full":
+        for t1, t2 in itertools.permutations(ALL_T, 2):    # every ordered pair of deletes, rebuilt in both orders
+            add("pair", warm([t1, t2]) + [("del", t1), ("del", t2), rng.choice(rebuilds(t1)), rng.choice(rebuilds(t2))])
+        for t in ALL_T:                                    # cold system: first use of each table through each path
+            for rb in rebuilds(t):
+                add("cold", [rb], final=rng.sample(group_of(t), len(group_of(t))))
+    alphabet = [("del", t) for t in ALL_T] + [("get", t) for t in ALL_T] + [("conv", p) for p in CONVS]
+    for _ in range(ctx.n(20, 200) if level == "full" else ctx.n(3, 30)):
+        add("random", [rng.choice(alphabet) for _ in range(rng.randint(4, 14))], final=rng.sample(ALL_T, len(ALL_T)))
+    return cases
+
+
+def sub_table_history(ctx):
+    cases = []
+    for n in active_configs(ctx):
+        if not CONFIGS[n][2]:
+            continue
+        dim = int(np.prod([dm for _, dm in CONFIGS[n][0]]))
+        if dim >= 6 and ctx.quick:
+            continue
+        level = "full" if n == "1q-pauli" else ("medium" if (dim <= 3 or (dim == 4 and not ctx.quick)) else "light")
+        cases += history_cases(ctx, n, level)
+    ctx.sample("table_history", cases[0])
+    ctx.run_cases("table_history", chk_table_history, cases)
 
 
 # ================================================================================================ states
@@ -1231,10 +1455,10 @@ def sub_linearity(ctx):
     ctx.run_cases("linearity", chk_linearity, cases)
 
 
-SUBS = [("basis", sub_basis), ("tables", sub_tables), ("state", sub_state), ("povm", sub_povm), ("gate_choi", sub_gate_choi),
+SUBS = [("basis", sub_basis), ("tables", sub_tables), ("table_history", sub_table_history), ("state", sub_state), ("povm", sub_povm), ("gate_choi", sub_gate_choi),
         ("gate_basis", sub_gate_basis), ("gate_kraus", sub_gate_kraus), ("gate_var", sub_gate_var), ("mprocess", sub_mprocess),
         ("truncate", sub_truncate), ("linearity", sub_linearity)]
-FNS = {"basis": chk_basis, "tables": chk_tables, "state": chk_state, "povm": chk_povm, "gate_choi": chk_gate_choi,
+FNS = {"basis": chk_basis, "tables": chk_tables, "table_history": chk_table_history, "state": chk_state, "povm": chk_povm, "gate_choi": chk_gate_choi,
        "gate_basis": chk_gate_basis, "gate_kraus": chk_gate_kraus, "gate_var": chk_gate_var, "mprocess": chk_mprocess,
        "truncate": chk_truncate, "linearity": chk_linearity}
 
